@@ -327,10 +327,10 @@ pub fn run(ctx: &Ctx) -> RunResult {
         "'remain usable' = after the history and a timer drain a fresh request is accepted and an authentic reply (for long-term: a 401 then an authentic success) completes".into(),
         "termination is observed as the call returning; hangs would surface as the run not finishing (reported as inconclusive by the caller's timeout)".into(),
     ];
-    rr.absorb(run_prop(ctx, "decode", ctx.pick(80_000, 1_500_000), arb_dec, |c, st| check_dec(c, st)));
+    rr.absorb(run_prop(ctx, "decode", ctx.pick(400_000, 4_000_000), arb_dec, |c, st| check_dec(c, st)));
     let o = client_opts();
-    rr.absorb(run_prop(ctx, "client", ctx.pick(20_000, 400_000), move || arb_history(o.clone()), |h, st| check_client(h, ctx, st)));
-    rr.absorb(run_prop(ctx, "stream", ctx.pick(20_000, 300_000), arb_stream, |c, st| check_stream(c, st)));
+    rr.absorb(run_prop(ctx, "client", ctx.pick(100_000, 1_000_000), move || arb_history(o.clone()), |h, st| check_client(h, ctx, st)));
+    rr.absorb(run_prop(ctx, "stream", ctx.pick(100_000, 1_000_000), arb_stream, |c, st| check_stream(c, st)));
     rr
 }
 
